@@ -88,7 +88,11 @@ func c01Typed[T interface {
 			u, m, l := dc.Compute(in[0])
 			return []<-chan T{u, m, l}
 		})
-		cases = append(cases, tc{"DonchianChannel.upper", outs[0], cases[1].want}, tc{"DonchianChannel.lower", outs[2], cases[2].want})
+		mid := make([]T, len(cases[1].want))
+		for i := range mid {
+			mid[i] = (cases[1].want[i] + cases[2].want[i]) / 2 // documented: (upper + lower) / 2 in the element type
+		}
+		cases = append(cases, tc{"DonchianChannel.upper", outs[0], cases[1].want}, tc{"DonchianChannel.lower", outs[2], cases[2].want}, tc{"DonchianChannel.middle", outs[1], mid})
 		for _, c := range cases {
 			if !eqSlice(c.got, c.want) {
 				cc.Viol("", fmt.Sprintf("trend.%s[%s] period %d on %v: got %v, documented window formula gives %v", c.name, typ, p, xs, c.got, c.want), nil)
